@@ -44,7 +44,8 @@ RegVariants ==
   \cup { [RegNom EXCEPT !.feePur = n] : n \in {0, 2} }
   \cup { [RegNom EXCEPT !.def = a, !.max = b] : a \in {0, 1, 3, 5}, b \in {0, 1, 3, Big64} }
   \cup { [RegNom EXCEPT !.denom = d] : d \in {"", " ", "1x", "other"} }
-StrVariants == { [feeNum |-> a, feeDen |-> b] : <<a, b>> \in { <<0, 1>>, <<1, 2>>, <<1, 1>>, <<3, 2>>, <<-1, 2>>, <<1, 100>> } }
+StrVariants == { [feeNum |-> a, feeDen |-> b] : <<a, b>> \in { <<0, 1>>, <<1, 2>>, <<1, 1>>, <<3, 2>>, <<-1, 2>>, <<1, 100>>,
+                                                                     <<101, 100>>, <<1005, 1000>>, <<1000001, 1000000>> } }   \* just above 1
 
 Updates == { <<"ent", p>> : p \in EntVariants } \cup { <<"wrk", p>> : p \in RegVariants }
            \cup { <<"bcn", p>> : p \in RegVariants } \cup { <<"str", p>> : p \in StrVariants }
